@@ -488,4 +488,34 @@ PROPS = {
                 "fails a keep-alive, wait, rate measurement), 6 at a time; 1 command-line case with 9 intervals",
         "trusted": [],
     },
+    "C14": {
+        "harness": "c14",
+        "imports": ["Base", "Routing", "Check14"],
+        "case_type": "c14_case",
+        "check": "c14_check",
+        "timeout_quick": 900,
+        "theories": ["theories/Base.v", "theories/Routing.v", "theories/RoutingProofs.v"],
+        "check_theories": ["theories/Check14.v"],
+        "level_text": "Coq theorems over a labelled transition system of jsonrpc2.Remote's reply routing (pending table of "
+                      "one-slot channels identified by id and generation, fresh request ids, the discard rule): for "
+                      "every trace a call that returns a payload returns one routed for its own id (invariant by "
+                      "induction over traces); with the repaired rule a reply for a waiting call reaches that call's "
+                      "channel in every reachable state whatever the pending limit (invariant: a waiting call's entry "
+                      "is in the table, marked, and survives every discard); the pinned rule is refuted by a 4-label "
+                      "trace; the reading loop blocks only on a second unconsumed reply for one id; a waiting call can "
+                      "always be cancelled and a late reply is never consumed by another call. PARTIAL: goroutine "
+                      "scheduling is quantified over as interleavings of the modelled steps; real schedulers are "
+                      "exercised. Tied to the code by executing generated traces (start / deliver / cancel, replies "
+                      "before the call exists, random limits) on a real Remote through a harness-controlled codec and "
+                      "comparing every call's final phase and the pending-table size in-kernel; plus two Remotes over a "
+                      "reordering transport with 8-50 concurrent callers per side, nested call-backs of depth 0-4, "
+                      "cancellations, and more calls in flight than the pending limit.",
+        "level_note": "Trusted: Coq kernel; request ids are fresh (atomic counter; wrap-around after 2^31 calls per "
+                      "connection is outside the model); the harness pauses 1.5 ms between labels so that each real "
+                      "goroutine reaches the modelled step; Go channels and mutexes.",
+        "technique": "Coq proof (trace invariants over an LTS) + vm_compute correspondence on scripted traces + stress runs",
+        "rule": "150 scripted traces of 6-19 labels with pending limit 0 or 2-5 and discard 1-3; 7 free-running runs "
+                "without limit (call-backs, cancellations), 3 with limit 8 / discard 3 and 26-46 slow calls in flight",
+        "trusted": [],
+    },
 }
